@@ -74,6 +74,17 @@ class HoldAnalysis(RuleAnalysis):
             return any((t.kind == "ext" and (t.ref in QUEUE_TYPES or t.ref.split(".")[-1] in ("deque", "Queue"))) for t in ts)
         if f.attr in SOURCE_METHODS:
             return True
+        # a driver that runs a callable parameter which is itself a source (`_retry_ssl_method(ssl_object.read, n)`): the value
+        # it returns is what the passed reading method returned
+        if call.args and isinstance(call.args[0], ast.Attribute) and call.args[0].attr in ("read", "recv", "read_into", "recv_into"):
+            try:
+                tg = self.typer.call_targets(self.fn, call)
+            except Exception:  # noqa: BLE001
+                tg = []
+            for t in tg:
+                ps = getattr(t, "params", None)
+                if ps is not None and any(a.arg in SOURCE_CALLABLE_PARAMS for a in t.params()):
+                    return True
         return False
 
     def source_in(self, e: ast.AST | None) -> ast.Call | None:
